@@ -30,6 +30,11 @@ def imp_file(r, path, N, kind):
             n = N + r.choice([1, 7, N])
         elif kind == "empty":
             return
+        elif kind == "zeros":
+            # a table of the right length that holds nothing but zeros: the wake potential is exactly zero from the first step on
+            for k in range(N):
+                fh.write(b"%d 0 0\n" % k)
+            return
         elif kind == "onecol":
             for k in range(N):
                 fh.write(b"%d\n" % k)
@@ -166,13 +171,13 @@ def gen(seed, i, tier, force=None):
         if r.chance(0.3):
             o["alpha1"] = r.choice([0.1, -1.0])
     if cls in ("impfile",):
-        kinds = ["exact", "short", "huge", "long", "empty", "missing", "onecol", "text", "nan", "hugeline", "dupline", "binary", "newlines", "short", "huge"]
+        kinds = ["exact", "short", "huge", "long", "empty", "missing", "onecol", "text", "nan", "hugeline", "dupline", "binary", "newlines", "short", "huge", "zeros"]
         kind = kinds[(i // 12 * 2 + (1 if i % 12 == 9 else 0)) % len(kinds)]       # every kind in every run (stratified, not sampled)
         if force and ":" in force:
             kind = force.split(":")[1]
         o["_impkind"] = kind
-        if r.chance(0.5):
-            o["VacuumGap"] = 0
+        if r.chance(0.5) or (force and kind in ("empty", "zeros")):
+            o["VacuumGap"] = 0          # (forced for the memcheck subset's empty / all-zero tables: the file is then the only impedance)
         o["Impedance"] = "imp.dat"
         if (i // 12) % 2 == 1:
             # ... together with tracked particles (what the file does to the wake reaches them through the kick map)
@@ -416,7 +421,7 @@ def run(ctx):
     # memcheck subset: spread over the classes
     # memcheck subset: uninitialised values are invisible to ASan/UBSan, so the classes that read input or build tables
     # from options are forced into it (one of each per 16), the rest is spread over the generator
-    forced = ["rf:modulation", "rf:noise", "impfile:empty", "impfile:short", "startdist:txt_empty", "startdist:txt_ok", "startdist:h5_rank2",
+    forced = ["rf:modulation", "rf:noise", "impfile:empty", "impfile:zeros", "impfile:short", "startdist:txt_empty", "startdist:txt_ok", "startdist:h5_rank2",
               "startdist:h5_same", "tracking", "kicks", "buckets", "grid", "buckets:roundup"]
     for k in range(nmem):
         f = forced[k % 16] if (k % 16) < len(forced) else None
